@@ -23,6 +23,8 @@ from pyvc.lib.numpy_ import unravel
 from pyvc.lib.seq import SymSeq
 from pyvc.lib.stdlib import BytesOf, FileModel, OpaqueValue, PathModel
 
+from props._contracts import polygon_contract_scenarios, scn_polygon_contract  # noqa: F401
+
 PROPERTY = 'C15'
 CONFIGS = [('CFGrid1D', {}), ('CFGrid2D', {}), ('ShocStandard', {}), ('UGrid', {'edges': 'none'})]
 MOD = 'emsarray.operations.geometry'
@@ -36,6 +38,7 @@ def scenarios(tier):
         out.append({'name': f'write_wkt / write_wkb[{cfg[0]}]', 'fn': 'scn_wk', 'kwargs': {'ci': ci}})
     out.append({'name': 'write_geojson streams to_geojson into the file', 'fn': 'scn_write_geojson', 'kwargs': {}})
     out.append({'name': 'write_shapefile with separate file arguments', 'fn': 'scn_shapefile_parts', 'kwargs': {}})
+    out += polygon_contract_scenarios()
     return out
 
 
